@@ -142,6 +142,26 @@ def obs_timing(case, block):
     return (classes_of(block), out)
 
 
+def obs_reframe(case, block):
+    """what C14 talks about: the converters' outputs, and for muxed histories which audio frames
+    are accepted and the stored audio sample bytes"""
+    if case.kind != "mux":
+        return block
+    buf = sink_of(block)
+    r = mp4.root(buf)
+    if r is None:
+        return ("unparsable", hashlib.sha1(buf).hexdigest())
+    out = []
+    for trak in r.find(b"moov", b"trak"):
+        rs = mp4.resolve_samples(buf, trak)
+        out.append([buf[o:o + s].hex() for o, s in (rs or [])])
+    ops = case.ops()
+    rs = [l for l in block if l.startswith("r ")]
+    adec = [(" ".join(rs[k].split(" ")[1:3]) if rs[k].startswith("r err") else "ok")
+            for k in range(min(len(ops), len(rs))) if ops[k][0] in ("wa", "ea")]
+    return (adec, out)
+
+
 def obs_none(case, block):
     """differential properties: the verdict comes from the paired runs on the real crate"""
     return None
@@ -372,14 +392,15 @@ class Engine:
             return 2
         cases = self.gen_cases()
         self.cases = cases
-        mblocks = self.run_model(cases)
-        iblocks = self.run_impl(cases)
+        runnable = [c for c in cases if c.kind != "cli"]
+        mblocks = self.run_model(runnable)
+        iblocks = self.run_impl(runnable)
         self.mblocks, self.iblocks = mblocks, iblocks
         self.ev["evaluations"] += len(cases)
         # correspondence
         obs = P.get("obs", obs_all)
         broken = []
-        for c in cases:
+        for c in runnable:
             m, i = mblocks.get(c.id), iblocks.get(c.id)
             self.corr["cases"] += 1
             if m != i:
@@ -696,7 +717,7 @@ PROPS = {
                 checks=["C02"], obs=obs_skeleton, components=["K7", "K8"], nontrivial=lambda c, b: True),
     "C03": dict(fams=[("fam_mux_av", 150, 3000), ("fam_mux_clean", 100, 2000), ("fam_reject_matrix", 200, 4000)], checks=["C03"], obs=obs_timing, components=["K7"], nontrivial=nt_finished),
     "C05": dict(fams=[("fam_reject_matrix", 300, 6000), ("fam_mux_basic", 100, 3000), ("fam_contract", 100, 3000), ("fam_frag", 60, 1000)], checks=[], obs=obs_none, extra=extra_C05, components=["K7", "K8"], nontrivial=nt_has_err),
-    "C14": dict(fams=[("fam_fn_annexb", 400, 20000), ("fam_adts_lengths", 80, 3000)], checks=["C14"], obs=obs_all, components=["K1", "K2"],
+    "C14": dict(fams=[("fam_fn_annexb", 400, 20000), ("fam_adts_lengths", 80, 3000)], checks=["C14"], obs=obs_reframe, components=["K1", "K2"],
                 nontrivial=lambda c, b: True),
 }
 
@@ -980,6 +1001,16 @@ def builder_words(case, key):
     return None
 
 
+def frag_dims_big(c):
+    for l in c.lines:
+        w = l.split(" ")
+        if w[0] == "b" and w[1] in ("video", "setvideo"):
+            return int(w[3], 16) > 65535 or int(w[4], 16) > 65535
+        if w[0] == "fc":
+            return int(w[1], 16) > 65535 or int(w[2], 16) > 65535
+    return False
+
+
 def kc_c19(clause, pred=lambda c: True):
     def f(eng, fl):
         d = fl.get("detail") or {}
@@ -1073,6 +1104,7 @@ KNOWN_CLASSES = {
     "c19_clause_10_vp9": kc_c19(10, is_vp9),
     "c19_clause_11_opus_multichannel": kc_c19(11, is_opus_multi),
     "c19_clause_10_frag_av1_hevc": kc_c19(10, is_frag_av1_hevc),
+    "c19_frag_dims_wrap": lambda eng, fl: (fl.get("detail") or {}).get("frag") and (fl.get("detail") or {}).get("clause") in (3, 9) and frag_dims_big(fl["case"]),
     "c16_duration_wrap": kc_duration_wrap,
     "c16_sample_rate_16_16": kc_rate_16_16,
 }
@@ -1109,3 +1141,309 @@ PROPS.update({
                 extra=extra_C19, obs=obs_boxes(b"mvhd", b"tkhd", b"mdhd", b"hdlr", b"vmhd", b"smhd", b"dref", b"stsd", b"trex"),
                 components=["K7", "K8"], nontrivial=lambda c, b: True),
 })
+
+
+# ---------------------------------------------------------------- C20: the CLI
+CLI = os.path.join(BUILD, "cargo-cli", "debug", "muxide")
+VALIASES = {"h264": ["h264", "H264", "h.264", "avc", "AVC"], "h265": ["h265", "h.265", "hevc", "HEVC"],
+            "av1": ["av1", "AV1"], "vp9": ["vp9", "Vp9"]}
+AALIASES = {"aac-lc": ["aac", "aac-lc", "AAC"], "aac-main": ["aac-main"], "aac-he": ["aac-he"], "aac-hev2": ["aac-hev2"],
+            "aac-ssr": ["aac-ssr"], "aac-ltp": ["aac-ltp"], "opus": ["opus", "OPUS"], "none": ["none"]}
+
+
+def hexfile_variants(rng, good):
+    """(text bytes, kind)"""
+    h = good.hex()
+    k = rng.below(12)
+    if k < 5:
+        return h.encode(), "valid"
+    if k == 5:
+        return (" ".join(h[i:i + 2] for i in range(0, len(h), 2)) + "\n").encode(), "valid-ws"
+    if k == 6:
+        return h.upper().encode(), "valid-upper"
+    if k == 7:
+        return (h + "0").encode(), "odd"
+    if k == 8:
+        return (h[:4] + "zz" + h[6:]).encode(), "nonhex"
+    if k == 9:
+        return b"", "empty"
+    if k == 10:
+        return b"\xff\xfe\x00\x01binary", "binary"
+    return b"  \n\t ", "blank"
+
+
+def fam_cli(rng, n, prefix):
+    out = []
+    for i in range(n):
+        codec = rng.choice(VCODECS)
+        d = dict(id="%s%d" % (prefix, i), codec=codec)
+        have_v = rng.chance(9, 10)
+        have_a = rng.chance(1, 3)
+        d["video"] = None
+        if have_v:
+            d["video"] = ("missing", None) if rng.chance(1, 12) else hexfile_variants(rng, video_key(rng, codec))[::-1]
+        d["acodec"] = rng.choice(list(AALIASES.keys())) if rng.chance(3, 4) else None
+        ac = d["acodec"] or "aac-lc"
+        d["audio"] = None
+        if have_a:
+            good = opus_packet(rng) if ac == "opus" else adts(rng)
+            d["audio"] = ("missing", None) if rng.chance(1, 12) else hexfile_variants(rng, good)[::-1]
+        d["vcodec_given"] = rng.chance(5, 6)
+        d["valias"] = rng.choice(VALIASES[codec])
+        d["aalias"] = rng.choice(AALIASES[ac]) if d["acodec"] else None
+        d["w"] = rng.choice([640, 640, 1920, 320, 4096, 319, 4097, 0, None])
+        d["h"] = rng.choice([480, 480, 1080, 240, 2160, 239, 2161, None])
+        d["fps"] = rng.choice(["30", "30", "29.97", "120", "0", "121", "-1", None])
+        d["rate"] = rng.choice([48000, 48000, 44100, 192000, 0, 192001, None])
+        d["ch"] = rng.choice([2, 2, 1, 8, 0, 9, None])
+        d["frag"] = rng.chance(1, 15)
+        d["dry"] = rng.chance(1, 10)
+        d["title"] = rng.choice([None, None, "Hello", "Grüße 世界"])
+        d["lang"] = rng.choice([None, None, "eng", "deu"])
+        d["json"] = rng.chance(1, 2)
+        d["verbose"] = rng.chance(1, 4)
+        d["badout"] = rng.chance(1, 15)
+        c = Case(d["id"], "cli")
+        c.meta = d
+        c.lines = [json.dumps({k: (v if not isinstance(v, tuple) else [v[0], (v[1].hex() if v[1] is not None else None)]) for k, v in d.items()})]
+        out.append(c)
+    return out
+
+
+F.fam_cli = fam_cli
+
+
+def fps_ok(s):
+    try:
+        x = float(s)
+        return 0.0 < x <= 120.0
+    except Exception:
+        return False
+
+
+def extra_C20(eng, cases):
+    root = os.path.join(RUN, "C20")
+    subprocess.call(["rm", "-rf", root])
+    os.makedirs(root, exist_ok=True)
+    lines, plans = [], []
+    for c in cases:
+        if c.kind != "cli":
+            continue
+        d = c.meta
+        wd = os.path.join(root, c.id)
+        os.makedirs(wd, exist_ok=True)
+        argv = [CLI, "--no-progress"]
+        if d["json"]:
+            argv.append("--json")
+        if d["verbose"]:
+            argv.append("--verbose")
+        argv.append("mux")
+        def inp(name, spec):
+            if spec is None:
+                return "~"
+            kind, content = spec
+            path = os.path.join(wd, name)
+            if kind != "missing":
+                open(path, "wb").write(content)
+            argv.extend(["--" + name, path])
+            return "M" if kind == "missing" else hx(content)
+        vtok = inp("video", d["video"])
+        atok = inp("audio", d["audio"])
+        outp = os.path.join(wd, "nodir", "out.mp4") if d["badout"] else os.path.join(wd, "out.mp4")
+        argv.extend(["--output", outp])
+        if d["vcodec_given"]:
+            argv.extend(["--video-codec", d["valias"]])
+        for k, flag in (("w", "--width"), ("h", "--height"), ("fps", "--fps"), ("rate", "--sample-rate"), ("ch", "--channels")):
+            if d[k] is not None:
+                argv.extend([flag, str(d[k])])
+        if d["acodec"]:
+            argv.extend(["--audio-codec", d["aalias"]])
+        if d["frag"]:
+            argv.append("--fragmented")
+        if d["dry"]:
+            argv.append("--dry-run")
+        if d["title"]:
+            argv.extend(["--title", d["title"]])
+        if d["lang"]:
+            argv.extend(["--language", d["lang"]])
+        tok = lambda v: "~" if v is None else "%x" % v
+        lines.append("mux %s %s %s %s %s %s %s %s %s %s %d %s %s %d %d" % (
+            c.id, vtok, atok, d["codec"] if d["vcodec_given"] else "~", tok(d["w"]), tok(d["h"]),
+            "~" if d["fps"] is None else ("1" if fps_ok(d["fps"]) else "0"),
+            d["acodec"] or "~", tok(d["rate"]), tok(d["ch"]), 1 if d["frag"] else 0,
+            hx(d["title"].encode()) if d["title"] else "~", hx(d["lang"].encode()) if d["lang"] else "~",
+            1 if d["dry"] else 0, 0 if d["badout"] else 1))
+        plans.append((c, argv, outp))
+    p = subprocess.run([DRIVER, "cli"], input=("\n".join(lines) + "\n").encode(), stdout=subprocess.PIPE, timeout=900)
+    model = {}
+    for l in p.stdout.decode().split("\n"):
+        w = l.split(" ")
+        if w[0] == "cli":
+            model[w[1]] = w[2:]
+    from concurrent.futures import ThreadPoolExecutor
+    def runit(pl):
+        c, argv, outp = pl
+        try:
+            r = subprocess.run(argv, stdout=subprocess.PIPE, stderr=subprocess.PIPE, timeout=20)
+            return c, r.returncode, r.stdout.decode(errors="replace"), outp
+        except subprocess.TimeoutExpired:
+            return c, "timeout", "", outp
+    eng.c20 = Counter()
+    with ThreadPoolExecutor(max_workers=16) as ex:
+        for c, rc, out, outp in ex.map(runit, plans):
+            eng.ev["evaluations"] += 1
+            m = model.get(c.id)
+            if m is None:
+                continue
+            done = ("Muxing complete" in out) or ('"video_frames"' in out) or ("Dry run complete" in out) or ('"dry_run": true' in out)
+            ok = (rc == 0)
+            eng.c20["ok" if ok else "fail"] += 1
+            if rc == "timeout":
+                eng.fail(c, "the CLI did not terminate within 20 s")
+                continue
+            if ok != (m[0] == "ok"):
+                eng.fail(c, "CLI exit status (%s) disagrees with the option/ input validity (model: %s)" % (rc, m[0]),
+                         dict(argv=plans[0][1][:3] and [a for a in [x for x in c.meta.items()]][:0], stdout=out[:300]))
+                continue
+            if ok and not done:
+                eng.fail(c, "CLI exited successfully without reporting completion")
+            if not ok and done:
+                eng.fail(c, "CLI reported completion but exited unsuccessfully")
+            if ok and m[1] != "none":
+                try:
+                    data = open(outp, "rb").read()
+                except Exception:
+                    data = None
+                if data is None or data.hex() != m[1]:
+                    eng.fail(c, "the file written by the CLI differs from the file the library/model produces for the same input and settings")
+                nv, na = int(m[2], 16), int(m[3], 16)
+                if c.meta["json"]:
+                    try:
+                        j = json.loads(out[out.index("{"):])
+                        if j.get("video_frames") != nv or j.get("audio_frames") != na:
+                            eng.fail(c, "reported frame counts do not match the accepted frames")
+                    except Exception:
+                        pass
+                else:
+                    if ("Video frames: %d" % nv) not in out or ("Audio frames: %d" % na) not in out:
+                        eng.fail(c, "reported frame counts do not match the accepted frames")
+    # validate and info
+    vlines, vplans = [], []
+    rng = eng.rng.fork("c20v")
+    for i in range(len(plans) // 2 + 10):
+        wd = os.path.join(root, "v%d" % i)
+        os.makedirs(wd, exist_ok=True)
+        argv = [CLI, "--json", "validate"]
+        toks = []
+        for name in ("video", "audio"):
+            if rng.chance(2, 3):
+                if rng.chance(1, 8):
+                    argv.extend(["--" + name, os.path.join(wd, "missing_" + name)])
+                    toks.append("M")
+                else:
+                    content, _ = hexfile_variants(rng, rng.bytes(rng.range(1, 12)))
+                    path = os.path.join(wd, name)
+                    open(path, "wb").write(content)
+                    argv.extend(["--" + name, path])
+                    toks.append(hx(content))
+            else:
+                toks.append("~")
+        if toks == ["~", "~"]:
+            continue          # the no-input case is outside the property's quantifier
+        vlines.append("validate v%d %s %s" % (i, toks[0], toks[1]))
+        vplans.append(("v%d" % i, argv))
+    ilines, iplans = [], []
+    samples = [sink_of(b) for b in list(getattr(eng, "iblocks", {}).values())[:0]]
+    for i in range(len(plans) // 2 + 10):
+        wd = os.path.join(root, "i%d" % i)
+        os.makedirs(wd, exist_ok=True)
+        k = rng.below(6)
+        boxes = b"".join(struct.pack(">I", 8 + n) + rng.choice([b"ftyp", b"moov", b"mdat", b"free", b"\xa9abc", b"\xff\xfe\x00\x01"]) + rng.bytes(n)
+                         for n in [rng.below(20) for _ in range(rng.range(1, 5))])
+        if k == 0:
+            content = boxes
+        elif k == 1:
+            content = boxes[: rng.below(len(boxes) + 1)]
+        elif k == 2:
+            content = rng.bytes(rng.range(0, 40))
+        elif k == 3:
+            content = boxes + struct.pack(">I", rng.choice([0, 1, 4, 7, 2**31, 2**32 - 1])) + b"evil" + rng.bytes(5)
+        elif k == 4:
+            content = struct.pack(">I", rng.range(1, 7)) * rng.range(2, 30)
+        else:
+            content = boxes + boxes
+        path = os.path.join(wd, "f.mp4")
+        open(path, "wb").write(content)
+        ilines.append("info i%d %s" % (i, hx(content)))
+        iplans.append(("i%d" % i, [CLI, "--json", "info", path]))
+    p = subprocess.run([DRIVER, "cli"], input=("\n".join(vlines + ilines) + "\n").encode(), stdout=subprocess.PIPE, timeout=900)
+    vm = {}
+    for l in p.stdout.decode().split("\n"):
+        w = l.split(" ")
+        if w[0] == "cli":
+            vm[w[1]] = w[2:]
+    c0 = cases[0]
+    for vid, argv in vplans:
+        try:
+            r = subprocess.run(argv, stdout=subprocess.PIPE, stderr=subprocess.PIPE, timeout=20)
+        except subprocess.TimeoutExpired:
+            eng.fail(c0, "validate did not terminate: " + vid)
+            continue
+        eng.ev["evaluations"] += 1
+        try:
+            j = json.loads(r.stdout.decode())
+            verdict = bool(j["valid"])
+        except Exception:
+            verdict = None
+        exp = vm.get(vid, ["valid", "?"])[1] == "1"
+        if verdict is None or verdict != exp:
+            f = Case("C20_" + vid, "cli")
+            f.lines = [" ".join(argv)]
+            eng.fail(f, "validate verdict %r differs from 'every given input exists and is non-empty even-length hex' (%r)" % (verdict, exp),
+                     dict(argv=argv, files={a: open(a, "rb").read().hex() for a in argv if os.path.isfile(a) and a != CLI}))
+    for iid, argv in iplans:
+        try:
+            r = subprocess.run(argv, stdout=subprocess.PIPE, stderr=subprocess.PIPE, timeout=20)
+        except subprocess.TimeoutExpired:
+            f = Case("C20_" + iid, "cli"); f.lines = [" ".join(argv)]
+            eng.fail(f, "info did not terminate within 20 s")
+            continue
+        eng.ev["evaluations"] += 1
+        m = vm.get(iid)
+        if m is None:
+            continue
+        if m[1] == "none":
+            if r.returncode == 0:
+                f = Case("C20_" + iid, "cli"); f.lines = [" ".join(argv)]
+                eng.fail(f, "info accepted a file shorter than a box header")
+            continue
+        try:
+            j = json.loads(r.stdout.decode())
+            got = []
+            for bx in j["boxes"]:
+                if bx["type"] == "invalid":
+                    got.append("invalid:%x:%x" % (bx["size"], bx["offset"]))
+                else:
+                    got.append("%s:%x:%x" % (bx["type"], bx["size"], bx["offset"]))
+        except Exception:
+            got = None
+        exp = []
+        for e in m[1].rstrip(".").split(","):
+            if not e:
+                continue
+            t, sz, off = e.split(":")
+            if t != "invalid":
+                try:
+                    t = bytes.fromhex(t).decode("utf-8")
+                except Exception:
+                    t = "????"
+            exp.append("%s:%s:%s" % (t, sz, off))
+        if got != exp:
+            f = Case("C20_" + iid, "cli"); f.lines = [" ".join(argv)]
+            eng.fail(f, "info does not list precisely the top-level boxes", dict(got=got, expected=exp,
+                     file=open(argv[-1], "rb").read().hex()))
+
+
+import struct
+PROPS["C20"] = dict(fams=[("fam_cli", 200, 3000)], checks=[], extra=extra_C20, obs=obs_none, components=["K11"],
+                    nontrivial=lambda c, b: True, no_shrink=True, no_model=True)
